@@ -305,7 +305,12 @@ pub fn funds_choice(f: usize) -> Coins {
         0 => vec![],
         1 => vec![("x".into(), 1)],
         2 => vec![("x".into(), 1), ("y".into(), 2)],
-        _ => vec![("x".into(), 100)],
+        3 => vec![("x".into(), 100)],
+        // one denomination named twice (the amounts add up), all-zero funds (no positive amount: the
+        // transfer and with it the call fails), a zero amount next to a positive one
+        4 => vec![("x".into(), 1), ("x".into(), 2)],
+        5 => vec![("x".into(), 0)],
+        _ => vec![("x".into(), 0), ("y".into(), 1)],
     }
 }
 
@@ -313,14 +318,14 @@ impl Funds {
     pub fn new(lo: usize, hi: usize) -> Funds {
         let mut kinds = vec![];
         for k in ["execute", "instantiate"] {
-            for f in 0..4 {
+            for f in 0..7 {
                 kinds.push((k, f));
             }
         }
         kinds.push(("execute-by-poor", 1));
         kinds.push(("wasm-sudo", 0));
         kinds.push(("migrate", 0));
-        Funds { g: Grammar::new(1, 1, 1, 10, hi), lo, hi, entry_kinds: kinds }
+        Funds { g: Grammar::new(1, 1, 1, 16, hi), lo, hi, entry_kinds: kinds }
     }
 }
 
@@ -354,11 +359,11 @@ impl Family for Funds {
     }
     fn call(&self, c: u64, child: usize, _ad: &Addrs) -> Msg {
         let c = c as usize;
-        if c < 8 {
-            let target = if c / 4 == 0 { Target::SelfC } else { Target::Other };
-            Msg::Call { target, funds: funds_choice(c % 4), node: child }
+        if c < 14 {
+            let target = if c / 7 == 0 { Target::SelfC } else { Target::Other };
+            Msg::Call { target, funds: funds_choice(c % 7), node: child }
         } else {
-            Msg::Instantiate { code: 1, funds: funds_choice(if c == 8 { 1 } else { 3 }), label: "sub".into(), admin: None, node: child }
+            Msg::Instantiate { code: 1, funds: funds_choice(if c == 14 { 1 } else { 4 }), label: "sub".into(), admin: None, node: child }
         }
     }
 }
